@@ -618,6 +618,12 @@ type ExprBinOpRef<'a> = (&'a Sp<ast::Expr>, Sp<ast::BinOpKind>, &'a Sp<ast::Expr
 impl JmpKind {
     fn as_binop_cond(&self) -> Option<(Sp<ast::CondKeyword>, Sp<ExprBinOpRef<'_>>)> {
         match *self {
+            // A comparison against a predecrement (`--x > 0`) is a single jump instruction whose
+            // negation cannot be compiled, so it must not become the condition of an `if` block.
+            JmpKind::Cond { cond: sp_pat!(ast::Expr::BinOp(ref a, _, ref b)), .. }
+                if matches!(a.value, ast::Expr::XcrementOp { .. }) || matches!(b.value, ast::Expr::XcrementOp { .. })
+                => None,
+
             JmpKind::Cond { keyword, cond: sp_pat!(span => ast::Expr::BinOp(ref a, op, ref b)) }
                 => Some((keyword, sp!(span => (a, op, b)))),
 
